@@ -300,7 +300,12 @@ func (fv *FV) resolveDyn(st *State, recv Val, m *types.Func) (target *ssa.Functi
 		ids = append(ids, fmt.Sprintf("(not (= %s %d))", ityp, fv.u.typeID(c)))
 	}
 	res := make([]bool, len(cands)+1)
-	done := make(chan int, len(cands)+1)
+	done := make(chan int, len(cands)+2)
+	infeasible := false
+	go func() {
+		infeasible = fv.quickEntails(st, "false")
+		done <- -1
+	}()
 	for i := range cands {
 		go func(i int) {
 			res[i] = fv.quickEntails(st, fmt.Sprintf("(= %s %d)", ityp, fv.u.typeID(cands[i])))
@@ -311,8 +316,11 @@ func (fv *FV) resolveDyn(st *State, recv Val, m *types.Func) (target *ssa.Functi
 		res[len(cands)] = fv.quickEntails(st, fmt.Sprintf("(not (lib_type %s))", ityp))
 		done <- len(cands)
 	}()
-	for i := 0; i <= len(cands); i++ {
+	for i := 0; i <= len(cands)+1; i++ {
 		<-done
+	}
+	if infeasible {
+		panic(infeasiblePath{})
 	}
 	if os.Getenv("GOVC_DEBUG") != "" {
 		fmt.Fprintf(os.Stderr, "resolveDyn %s in %s: %v\n", m.Name(), fv.fc.Key, res)
